@@ -7,11 +7,14 @@ HOOK_COMMITS = [
     "78d63cc",  # pool-backed file counters
     "dae9147",  # NFSv4.1 program state export
     "79725d5",  # NFSv4.0 program state export
+    "9ea6bb0",  # in-memory directory state export
+    "4d43ddb",  # IdleInvoker state probe
+    "7057f6d",  # mutable proto store snapshot
     "8b54f47",  # lock probes (directories, files, handle allocator, opened files pool, idle invoker, sector allocator)
 ]
 
 # harness packages compiled by bin/setup (those of the registered checks)
-SETUP_PACKAGES = ["brl", "sched", "buildclient", "filepool", "execpipe", "poolfile", "inputroot", "suspclock", "outputs", "nfs40", "nfs41", "locks", "lockrace"]
+SETUP_PACKAGES = ["brl", "sched", "buildclient", "filepool", "execpipe", "poolfile", "inputroot", "suspclock", "outputs", "nfs40", "nfs41", "locks", "lockrace", "vfsdir", "idleinv", "iscc"]
 
 NOT_APPLICABLE = {}
 
@@ -125,3 +128,22 @@ CHECKS["C18"] = PENDING.pop("C18")
 CHECKS["C19"] = PENDING.pop("C19")
 CHECKS["C14"] = PENDING.pop("C14")
 CHECKS["C20"]["text"] += " Parallel level: eight lock-owners of different clients ask for overlapping ranges of one opened file at the same moment (real goroutines, spin barrier); 'granted' is logged after Lock() returned and 'releasing' before UnlockAll() is called, and LockRaceTrace.tla checks that no two different owners ever hold conflicting locks at once."
+
+CHECKS["C13"] = {
+    "text": "VFSDir.tla is a reference POSIX-style hierarchy (directories with deleted/lazy flags, change counter and ordered entries with cookies; leaves with kind and link count) in which every API call is an operator returning the set of outcomes POSIX plus the documented interface permit; TLC explores five small universes exhaustively (2-3 directories, 1-2 leaves plus a symlink, case-insensitive normalizer on/off, hidden names on/off, a Listing process resuming from cookies interleaved with every mutation) and checks map/list agreement, deleted-is-empty-and-accepts-nothing, link counts, tree shape, pagination, change-counter and cookie stability. The real NewInMemoryPrepopulatedDirectory (real pool-backed file allocator, symlink factory, FUSE- and NFS-style handle allocators, both normalizers, hidden matcher) is driven by seeded random histories mixing Virtual* and bulk calls, by every single call and pair of calls from four seed states, and by replayed tlc -simulate behaviours; TLC judges every call on status, returned child, ChangeInfo, listing pages, resulting contents, cookies, change counter and link counts.",
+    "design_ref": "DESIGN.md section 4 (C13)",
+    "note": _NOTE + " Single-threaded histories (concurrency is C14); cookies and change IDs are abstract (order, stability, increase); where several error conditions hold any applicable error is accepted; the FUSE RawFileSystem front end is not driven.",
+    "technique": "TLA+ reference model + TLC validation of real-code traces + spec->code behaviour replay",
+}
+CHECKS["C12"] = {
+    "text": "IdleInvoker.tla models idle_invoker.go at critical-section granularity (Acquire: lock, park on wakeup, clean at 0->1; Release: clean at 1->0; cleaner ok/fail; cancellation while parked) plus the Shared(Clean(Root)) creator chain; TLC explores all interleavings of 3 threads (mutual exclusion of cleaning and running, use count, no lost wake-up, cleaning exactly at the edges, no start after a failed cleaning, deadlock), 2 threads with directory faults (directories distinct, nothing left, only while held, clean root) and liveness under fairness. The real IdleInvoker is driven inside testing/synctest with a gated instrumented Cleaner: every harness step from every reachable quiescent state, TLC-simulated schedules and seeded random schedules, directly, through CleanRunner, through CleanBuildDirectoryCreator and through Shared(Clean(Root(virtual build directory))) chains over one real in-memory directory with injected failures; TLC validates every event against the set of all specification states consistent with the log.",
+    "design_ref": "DESIGN.md section 3 (C12)",
+    "note": _NOTE + " Only the virtual in-memory backend; the real process-table/tmpdir cleaners and localBuildExecutor's deferred Close are not driven.",
+    "technique": "TLA+ model checked by TLC (safety, deadlock, liveness); powerset trace validation of real-code traces (exhaustive quiescent-state enumeration, simulated schedules, random)",
+}
+PENDING["C07"] = {
+    "text": "(1) Linear protocol in the scheduler (Sched family): ghost counters over the scripted analyzer's logged calls — every selector gets exactly one of Select/Abandoned, every learner at most one terminal call matching what happened (Succeeded with the reported duration only for OK/exit 0, Failed(timedOut = DEADLINE_EXCEEDED) for worker failures, Abandoned otherwise), a learner returned by Failed means the task is re-queued once on the largest size class with that timeout, background runs are do_not_cache, in the background invocation, bounded and do not delay the client. (2) ISCC.tla part A transcribes the selector/learner state machine; the real FeedbackDrivenAnalyzer (real PageRank and smallest-size-class calculators) and FallbackAnalyzer are driven by seeded stats, size-class lists, timeouts and outcome sequences; TLC checks index < n, 0 <= timeout <= action timeout, probabilities in [0,1] summing to <= 1, retry at most once, exactly one (dirty when an outcome was recorded) release of the stats handle. (3) ISCC.tla part B models the mutable proto store per lock section; TLC checks the design exhaustively (useCount balance, in-use handle in the map and not queued, no lost update after draining, monotonic writes); the real store runs TLC counterexample schedules of the as-coded variant, simulated and seeded random schedules over a gated fake BlobAccess, is drained and read back, and the same predicates are evaluated on hook-observed states.",
+    "design_ref": "DESIGN.md sections 2 (C07) and 14",
+    "note": _NOTE + " The numeric quality/convergence of the PageRank iteration is out of reach of this technique (a non-returning call makes the driver exit 2).",
+    "technique": "TLA+ models + TLC; trace validation of scheduler, analyzer and store traces; spec->code replay of TLC counterexample and simulated schedules on the real store",
+}
